@@ -81,7 +81,7 @@ def run(tier, seed, replay):
                     nat["bound"], nat["cases"], [v for v in pos_viol if not K7_PRE.search(v["text"])],
                     nontrivial=nat["nontrivial"],
                     samples=[nat["bound"][:80]], time_s=search.get("t", 0.0))
-    explained = any(i.status == "failed" for i in chk.items)
+    explained = chk.has_unlisted_failure()
     import re as _re
     K7 = _re.compile(r"(\\|\?\?/)(\?\?[<>()=/'!\-]|<%|%>|<:|:>|%:|\t)")      # escape of a respelled character / of a tab
     for v in pos_viol:
